@@ -150,7 +150,7 @@ func (s *sampler) dfloatK() string {
 
 func (s *sampler) bdfloatK() string {
 	fixed := []string{"bdf:15:-1", "bdf:-15:-1", "bdf:123456789012345678901234567890123456789:-20", "bdf:-987654321098765432109876543210987:5",
-		"bdf:inf", "bdf:-inf", "bdf:1:-1000", "bdf:18446744073709551617:0", "bdf:0:0", "bdf:-0:0", "bdf:0:5", "bdf:150:-2"}
+		"bdf:inf", "bdf:-inf", "bdf:1:-1000", "bdf:18446744073709551617:0", "bdf:0:0", "bdf:-0:0", "bdf:0:5", "bdf:150:-2", "bdf:12345678901234567890123456789000:-5", "bdf:-98765432109876543210987654321098700:3"}
 	return fixed[s.pick("bdfloat", len(fixed))]
 }
 
